@@ -48,6 +48,7 @@ def events (d : D) (toks : List String) : D × List Ev :=
   | ["set", _, "timeout", ep, v] => (d, [.setTimeout (parseEp ep) (if v = "inf" then none else v.toNat?)])
   | ["shutdown", _, ep, _] => (d, tm ++ [.shutdown (parseEp ep)])
   | ["close", _, ep, _] => (d, tm ++ [.close (parseEp ep)])
+  | "spurious" :: _ => (d, [.spurious])
   | ["result", "done"] => (d, [.final])
   | _ => (d, [])
 
